@@ -631,7 +631,13 @@ impl Drop for HandlerGuard {
         let now = self.fabric.now_ns();
         let mut s = self.state.lock().unwrap();
         s.inflight -= 1;
-        if let Some(e) = s.seen.iter_mut().find(|e| e.id == self.id) {
+        let idx = self.id as usize;
+        let e = if s.seen.get(idx).map(|e| e.id == self.id).unwrap_or(false) {
+            s.seen.get_mut(idx)
+        } else {
+            s.seen.iter_mut().find(|e| e.id == self.id)
+        };
+        if let Some(e) = e {
             if self.done {
                 e.completed_at_ns = Some(now);
             } else {
